@@ -3,8 +3,8 @@
    Model: Model/S3Retry.v (request loop of S3ChunkStore.request over the urllib3 Retry counters, _request conversions,
    error_map, _raise_for_status, _DetectTruncation, get_chunk + bucket check, RDB fetch), Model/Jwt.v. *)
 From Coq Require Import ZArith List Bool String.
-From KV Require Import Base.Sx Base.Str Gen.Generated Model.S3Retry Model.S3Session Model.Jwt Model.JwtHist Proofs.S3RetryP
-  Proofs.S3SessionP Proofs.JwtP Proofs.JwtHistP.
+From KV Require Import Base.Sx Base.Str Gen.Generated Model.S3Retry Model.S3Session Model.Jwt Model.JwtHist Model.S3Url
+  Proofs.S3RetryP Proofs.S3SessionP Proofs.JwtP Proofs.JwtHistP Proofs.S3UrlP.
 Import ListNotations.
 Open Scope Z_scope.
 
@@ -476,3 +476,38 @@ Theorem C09_default_store_budget : forall segs pre,
   request default_store (PChunk segs) (total segs) [] pre = (Ok (total segs), S (List.length pre)).
 Proof. exact default_store_budget. Qed.
 Print Assumptions C09_default_store_budget.
+
+(* =====================================================================================
+   WHICH OBJECT IS ASKED FOR (Model/S3Url.v): make_url / _normalise_bucket_name / _bucket_url on paths.
+   ===================================================================================== *)
+
+(* ---- never an ALTERED array by way of another object: for every bucket name and every key (array path and chunk
+   index, which are full of underscores) only the bucket part changes - underscores to dashes - and the key reaches the
+   server exactly as it is ---- *)
+Theorem C09_object_key_untouched : forall b k c t, b = c :: t -> nosep b = true ->
+  normalise (s3_path_sep :: b ++ s3_path_sep :: k) = s3_path_sep :: dash b ++ s3_path_sep :: k.
+Proof. exact key_untouched. Qed.
+Print Assumptions C09_object_key_untouched.
+
+(* ---- the bucket that is listed (and cached) after a 404 is the bucket of the chunk, in the form the server knows it:
+   no underscores; normalising twice changes nothing; a bucket without underscores is left alone ---- *)
+Theorem C09_bucket_of_request : forall p,
+  bucket_of (normalise p) = dash (bucket_of p) /\
+  forallb (fun c => negb (c =? s3_bucket_from)) (bucket_of (normalise p)) = true /\
+  normalise (normalise p) = normalise p /\
+  snd (split1 (lstrip_sep (normalise p))) = snd (split1 (lstrip_sep p)).
+Proof.
+  intro p. split; [apply bucket_of_normalise|]. split; [apply bucket_no_underscore|].
+  split; [apply normalise_idem|apply rest_of_normalise].
+Qed.
+Print Assumptions C09_bucket_of_request.
+
+Example C09_url_examples :
+  let s := codes_of_string in
+  chunk_path (s "1557528200_sdp_l0/correlator_data/00012_00000_00512"%string) =
+    s "/1557528200-sdp-l0/correlator_data/00012_00000_00512.npy"%string /\
+  bucket_of (chunk_path (s "1557528200_sdp_l0/correlator_data/00012_00000_00512"%string)) = s "1557528200-sdp-l0"%string /\
+  normalise (s "//b_1"%string) = s "/b-1"%string /\ normalise (s ""%string) = s "/"%string /\
+  s3_path_sep = 47 /\ s3_bucket_from = 95 /\ s3_bucket_to = 45 /\ s3_chunk_extension = ".npy"%string.
+Proof. vm_compute. repeat split; reflexivity. Qed.
+Print Assumptions C09_url_examples.
